@@ -17,6 +17,8 @@
 """This module implements the 'RLScheduler' scheduler."""
 from __future__ import annotations
 
+import contextlib
+import queue
 import threading
 from typing import TYPE_CHECKING, cast
 
@@ -111,11 +113,16 @@ class RLScheduler(BaseScheduler):
     def _train(self) -> None:
         """Run the training loop."""
         state = self._env.reset()
-        while not self._stopped:
+        while True:
             # Get the action chosen by the agent
             action = self._agent.policy(state)
             # Interact with the environment
-            next_state, reward, _, _, _ = self._env.step(action)
+            next_state, reward, _, truncated, _ = self._env.step(action)
+            if truncated:
+                # end-of-session marker: the chosen action was never executed, there is nothing to learn from.
+                # The marker (not the session flag, which the calibration thread writes concurrently) ends the loop,
+                # so it is always consumed by the session it belongs to.
+                break
             # Learn from interaction
             self._agent.learn(state, action, reward, next_state)
             state = next_state
@@ -165,3 +172,8 @@ class RLScheduler(BaseScheduler):
         self._stopped = True
         self._out_queue.put(None)
         cast(threading.Thread, self._agent_thread).join()
+        # the agent always has one chosen-but-unexecuted action pending when it receives the marker: drop it, so
+        # that it is not mistaken for the first choice of the next session
+        with contextlib.suppress(queue.Empty):
+            while True:
+                self._in_queue.get_nowait()
